@@ -40,7 +40,13 @@ fn b_config(base: u32, prop: u32, delta: u16) -> UserConfig {
 
 /// A -> B -> C with a hand-built route: `fee_b` is what A pays B, `delta_b` the cltv delta A grants B.
 fn send_custom(net: &mut Net, c0: usize, c1: usize, amt: u64, fee_b: u64, delta_b: u32, final_delta: u32) -> Result<usize, String> {
-	let (preimage, hash, secret) = get_payment_preimage_hash(&net.nodes[C], Some(amt), None);
+	// (functional_test_utils::get_payment_preimage_hash counts payments in a u8)
+	static COUNTER: std::sync::atomic::AtomicU64 = std::sync::atomic::AtomicU64::new(1);
+	let n = COUNTER.fetch_add(1, std::sync::atomic::Ordering::Relaxed);
+	let mut pre = [0x5au8; 32]; pre[..8].copy_from_slice(&n.to_be_bytes());
+	let preimage = lightning::types::payment::PaymentPreimage(pre);
+	let hash = lightning::types::payment::PaymentHash({ use bitcoin::hashes::{sha256, Hash}; sha256::Hash::hash(&pre).to_byte_array() });
+	let secret = net.nodes[C].node.create_inbound_payment_for_hash(hash, Some(amt), 7200, None, None).map_err(|_| "create_inbound_payment_for_hash".to_string())?.0;
 	let hops = vec![
 		RouteHop { pubkey: net.ids[B], node_features: NodeFeatures::empty(), short_channel_id: net.chans[c0].3, channel_features: ChannelFeatures::empty(), fee_msat: fee_b, cltv_expiry_delta: delta_b, maybe_announced_channel: true },
 		RouteHop { pubkey: net.ids[C], node_features: NodeFeatures::empty(), short_channel_id: net.chans[c1].3, channel_features: ChannelFeatures::empty(), fee_msat: amt, cltv_expiry_delta: final_delta, maybe_announced_channel: true },
